@@ -10,6 +10,7 @@
 -/
 import CnvVerif.Model.Reference
 import CnvVerif.Lemmas.Reference
+import CnvVerif.Lemmas.ReferenceValues
 namespace CnvVerif.C05
 open CnvVerif CnvVerif.Ref
 
@@ -92,6 +93,27 @@ theorem gc_rmask_def (seq : List Char)
       ((seq.countP (fun c => c == 'G' || c == 'C' || c == 'g' || c == 'c') +
         seq.countP (fun c => c == 'A' || c == 'T' || c == 'a' || c == 't') : Nat) : Rat) :=
   gcRmask_def seq h
+
+/-- the first sentence of the property: when a block of coverage files is accepted, the reference has one row per
+    bin of the sample that comes first in file-name order, every other file has the same bins, and for the i-th bin
+    log2 and spread are Tukey's biweight location and midvariance of the i-th COLUMN of the matrix whose first row is
+    the neutral pseudo-sample (`expectFlat`) and whose other rows are each sample's log2 after median-centring and the
+    shift of its sex chromosomes to the requested reference sex (`sampleLogr`); depth is the location of the depths -/
+theorem reference_values_are_biweight_of_columns (hapX : Bool) (par : Option String) (skipLow : Bool)
+    (sexes : List (String × Bool)) (samples : List Ref.Sample) (outs : List Ref.RefOut) (first : Ref.Sample)
+    (rest : List Ref.Sample) (hs : Ref.sortSamples samples = first :: rest) (hne : first.rows.isEmpty = false)
+    (h : Ref.refBlock hapX par skipLow sexes samples = .ok outs) :
+    let flat := expectFlat hapX par (first.rows.map Ref.toC)
+    let logr := (first :: rest).map fun s =>
+      Ref.sampleLogr hapX par skipLow ((sexes.find? (·.1 == s.name)).map (·.2)) flat s.rows
+    let n := first.rows.length
+    let lcols := Ref.columns n (flat :: logr)
+    let dcols := Ref.columns n ((first :: rest).map (fun s => s.rows.map (·.depth)))
+    (∀ s ∈ rest, s.rows.map Ref.binKey = first.rows.map Ref.binKey) ∧
+    outs = ((first.rows.zip lcols).zip dcols).map (fun p =>
+      { chrom := p.1.1.chrom, s := p.1.1.s, e := p.1.1.e, gene := p.1.1.gene, log2 := Ref.locOf p.1.2,
+        depth := Ref.locOf p.2, spread := Ref.spreadOf p.1.2 (Ref.locOf p.1.2) }) :=
+  Ref.refBlock_values hapX par skipLow sexes samples outs first rest hs hne h
 
 /-! non-vacuity -/
 example : sexAdjust true .x (flatX true) (rawX true) = -1 ∧ sexAdjust false .x (flatX false) (rawX false) = 0 := by
